@@ -361,7 +361,7 @@ Proof.
   rewrite incr_numeric_bumped. unfold bumped. cbv zeta.
   cbn [f_major f_minor f_patch f_tag f_tag_num f_pin_increments].
   destruct ft as [T|]; cbn [option_map].
-  - destruct (ST.ltext_cons T) as (x & tl & E). rewrite E.
+  - destruct (ST.ltext_cons T) as (x & tl & E). rewrite E. cbv beta iota. proj.
     destruct (eqb_str (x :: tl) tag); cbn [negb]; upd; rewrite <- E, ST.py_of_ltext;
       destruct fpi; upd; rewrite Hb; upd; unfold P; rewrite reset_rollover_fields_eq, CV.ppf_calver, CV.inits_calver;
       (eexists; split; [reflexivity|]; repeat split; reflexivity).
@@ -380,7 +380,7 @@ Proof.
   rewrite incr_numeric_bumped. unfold bumped. cbv zeta.
   cbn [f_major f_minor f_patch f_tag f_tag_num f_pin_increments].
   destruct ft as [T|]; cbn [option_map].
-  - destruct (ST.ltext_cons T) as (x & tl & E). rewrite E.
+  - destruct (ST.ltext_cons T) as (x & tl & E). rewrite E. cbv beta iota. proj.
     destruct (eqb_str (x :: tl) tag); cbn [negb]; upd; rewrite <- E, ST.py_of_ltext;
       destruct fpi; upd; rewrite Hb; reflexivity.
   - destruct fpi; upd; rewrite Hb; reflexivity.
